@@ -2,6 +2,7 @@ package propeller
 
 import (
 	"errors"
+	"fmt"
 	"time"
 
 	"github.com/NethermindEth/juno/consensus/propeller/merkle"
@@ -66,6 +67,20 @@ func UnitFromProto(protoUnit *pb.PropellerUnit) (Unit, error) {
 	shards := make(ShardData, len(protoUnit.Shards.GetShards()))
 	for i, s := range protoUnit.Shards.GetShards() {
 		shards[i] = Shard(s.Data)
+	}
+
+	// A unit without shards, or whose Merkle root is not 32 bytes, comes from a faulty or hostile
+	// peer: reject it instead of indexing into an empty slice / converting a short slice to an
+	// array (both panic).
+	if len(shards) == 0 {
+		return Unit{}, errors.New("unit has no shards")
+	}
+	if len(protoUnit.MerkleRoot.GetElements()) != len(MessageRoot{}) {
+		return Unit{}, fmt.Errorf(
+			"unit merkle root has %d bytes, expected %d",
+			len(protoUnit.MerkleRoot.GetElements()),
+			len(MessageRoot{}),
+		)
 	}
 
 	// validate that all shard length is the same
